@@ -2,7 +2,7 @@
    models (nothing regenerated from /repo): used to search for a failing input
    when the translation or a proof about the generated code is broken. *)
 From Coq Require Import Extraction ExtrOcamlBasic.
-From LE Require Import Base Strs Config Err ConfigSpec ErrSpec Retry RetrySpec Store Ev World Mon Mon2 NoProto Run Env.
+From LE Require Import Base Strs Config Err ConfigSpec ErrSpec Retry RetrySpec Store Ev World Mon Mon2 NoProto Run Env EnvT.
 
 Extraction Language OCaml.
 Extraction "extracted.ml"
@@ -10,4 +10,4 @@ Extraction "extracted.ml"
   msg class_ok required_class nats_situation_permanent
   sstep srun empty_store
   backoff_withinb cb_spec_step retry_loop
-  kind_names decode check_trace check_guards check_env.
+  kind_names decode check_trace check_guards check_env check_envT.
